@@ -17,6 +17,7 @@ EXPLANATION = (
 RULE = "one obligation per loop-bound clause, per gate, per return site"
 TRUSTED = ["tokio::time::sleep", "rustc MIR construction"]
 ASSUMPTIONS = ["max_attempts / should_retry / try_withdraw / next_backoff are the public names of the configuration hooks"]
+CONFIG_CRATES = ["tower_resilience_retry"]
 TECHNIQUE = "static analysis of built MIR: counting-loop recognition with guard normal form, must-pass-through (edge sets) on back-edge paths, value-flow of returned payloads"
 
 CRATE = "tower_resilience_retry"
